@@ -165,11 +165,42 @@ def gen_case(rng, idx):
         if rng.random() < 0.3:
             corder += [[w, 0], [0, h], [-1, 0]]          # non-existent chips are allowed (skipped)
         rng.shuffle(corder)
-    return dict(machine=dict(w=w, h=h, res=caps, exc=exc, dead=[list(c) for c in dead], dead_links=dead_links),
-                vres=vres, nets=nets, constraints=cons, vorder=vorder, corder=corder,
+    # dead_chips may name chips outside the bounds (a window cut from a larger system), even more of them than the
+    # machine has chips; the library accepts such machines
+    outside = []
+    if rng.random() < 0.2:
+        k = rng.choice([1, 3, w * h + 1, w * h + 3])
+        outside = [[w + i % 3, i // 3] if i % 2 == 0 else [i // 3, h + i % 3] for i in range(k)]
+        if rng.random() < 0.5:
+            outside.append([-1, 0])
+    reskind = rng.choice(["int"] * 5 + ["identity", "identity", "value", "str"])
+    return dict(machine=dict(w=w, h=h, res=caps, exc=exc, dead=[list(c) for c in dead] + outside, dead_links=dead_links),
+                vres=vres, nets=nets, constraints=cons, vorder=vorder, corder=corder, reskind=reskind,
                 effort=rng.choice([0, 0.1, 1]), seed=rng.randrange(1 << 30), mode=mode, idx=idx,
                 sa_steps=rng.choice([0, 50, 100, 300]),
                 reuse=[rng.choice(REUSE_CFGS) for _ in range(3)])
+
+
+def gen_large(rng):
+    """A few LARGE feasible unit problems (recursion depth, quadratic blow-ups): a 34x30 machine with a sparse
+    netlist and a 1200-vertex chain on a 36x36 machine.  Judged by the oracle on the outputs only -- the model is
+    NOT evaluated on these (association lists of this size are too slow under vm_compute)."""
+    cases = []
+    w, h = 34, 30
+    dead = [[rng.randrange(w), rng.randrange(h)] for _ in range(12)]
+    ids = list(range(60))
+    cases.append(dict(machine=dict(w=w, h=h, res=[[0, 2]], exc=[], dead=dead, dead_links=[]),
+                      vres=[[v, [[0, 1]]] for v in ids],
+                      nets=[[rng.choice(ids), [rng.choice(ids) for _ in range(rng.randint(1, 3))], 1] for _ in range(20)],
+                      constraints=[], vorder=None, corder=None, effort=0.1, seed=rng.randrange(1 << 30), mode="large",
+                      idx=300000, sa_steps=0, large_sa=True))
+    n = 1200
+    cases.append(dict(machine=dict(w=36, h=36, res=[[0, 1]], exc=[], dead=[], dead_links=[]),
+                      vres=[[v, [[0, 1]]] for v in range(n)],
+                      nets=[[v, [v + 1], 1] for v in range(n - 1)],
+                      constraints=[], vorder=None, corder=None, effort=0.1, seed=rng.randrange(1 << 30), mode="large",
+                      idx=300001, sa_steps=0, large_sa=False))
+    return cases
 
 
 def gen_stress(rng, idx):
@@ -265,9 +296,13 @@ class Problem(object):
         for v, xy in seen.items():
             if not self.is_live(xy):
                 return "dead-chip", "vertex %r on %r which is not a working chip" % (v, xy)
+        loads = {}
+        for v, xy in seen.items():
+            for r, q in self.vres[v].items():
+                loads[(xy, r)] = loads.get((xy, r), 0) + q
         for xy in self.live:
             for r in self.resources:
-                tot = sum(self.vres[v].get(r, 0) for v in seen if seen[v] == xy)
+                tot = loads.get((xy, r), 0)
                 if tot > max(0, self.free(xy, r)):
                     return "over-capacity", "chip %r resource %r: demand %r > capacity %r - reserved %r" % (
                         xy, r, tot, self.cap(xy, r), self.reserved(xy, r))
@@ -346,6 +381,8 @@ def orders_valid(c, prob):
 
 def classify_key(c, prob, cfg, o):
     cons = c["constraints"]
+    if o[0] == "other" and o[1] != "IndexError":
+        return "other-exception:%s:%s" % (cfg, o[1])
     if o[0] == "other":
         if any(k[0] == "reserve" and k[4] is None for k in cons) and any(tuple(xy) in prob.dead for xy, _ in c["machine"]["exc"]):
             return "global-reserve-dead-chip-exception"
@@ -593,6 +630,7 @@ def run(chk, args):
         n = 1000 if chk.tier == "quick" else 12000
         cases = [gen_case(chk.rng, i) for i in range(n)]
         cases += [gen_stress(chk.rng, i) for i in range(3000 if chk.tier == "quick" else 30000)]
+        cases += gen_large(chk.rng)
         if chk.tier != "quick":
             cases += enumerate_small()
         corpus = os.path.join(lib.VERIF, "corpus", "C02.json")
@@ -626,6 +664,15 @@ def run(chk, args):
                    "missing pairs: %s" % missing)
     for name, cfgs in SEVEN.items():
         chk.oblige("placer configuration exercised: " + name, not cases or all(ran.get(cfg, 0) > 0 for cfg in cfgs[:1]))
+    # the class Machine defines what the model mirrors and nothing else (fail closed on new special methods)
+    try:
+        inv = chk.impl("impl_c02.py", dict(cases=[], inventory=True))["machine"]
+        expected = ['__contains__', '__eq__', '__getitem__', '__init__', '__iter__', '__ne__', '__setitem__', 'copy',
+                    'has_wrap_around_links', 'issubset', 'iter_links']
+        chk.oblige("inventory:rig.place_and_route.machine.Machine defines exactly the methods the model mirrors",
+                   inv == expected, "Machine defines %r, the model was written for %r" % (inv, expected))
+    except RuntimeError as e:
+        chk.oblige("inventory:Machine", False, str(e))
     # the level formula of hilbert_chip_order (float log) against the model's integer search, exhaustively
     if chk.model_ok:
         try:
@@ -645,12 +692,14 @@ def run(chk, args):
     # model: correspondence + validator, evaluated in Coq
     if chk.model_ok:
         try:
-            labelled = [coq_case(c, r) for c, r in zip(cases, results)]
+            small = [(c, r) for c, r in zip(cases, results) if c.get("mode") != "large"]
+            cases_m, results_m = [c for c, _ in small], [r for _, r in small]
+            labelled = [coq_case(c, r) for c, r in small]
             vals = chk.coq_eval(HEADER, [e for _, e in labelled], shard=40 if chk.tier == "quick" else 150,
                                 timeout=1500)
             agree = {}
             bad = 0
-            for c, r, (labels, _), v in zip(cases, results, labelled, vals):
+            for c, r, (labels, _), v in zip(cases_m, results_m, labelled, vals):
                 for lab, b in zip(labels, v):
                     agree.setdefault(lab.split(":")[0] + ":" + lab.split(":")[1], [0, 0])[0 if b else 1] += 1
                     if lab == "corr:sa_python_kernel_steps":
